@@ -1052,8 +1052,8 @@ def selftest():
 
 def jobs(tier, seed):
     q = tier == 'quick'
-    plan = {'json_value': (4, 1500) if q else (4, 40000), 'json_text': (4, 1500) if q else (5, 40000),
-            'json_invalid': (1, 1000) if q else (1, 20000), 'xml': (5, 1000) if q else (6, 25000)}
+    plan = {'json_value': (4, 1500) if q else (4, 30000), 'json_text': (4, 1500) if q else (5, 30000),
+            'json_invalid': (1, 1000) if q else (1, 20000), 'xml': (5, 1000) if q else (6, 20000)}
     out = []
     for chk, (shards, n) in plan.items():
         for i in range(shards):
